@@ -1,4 +1,5 @@
-import LinOp.C07.ProofsStruct
+import LinOp.C07.ProofsAll
+import LinOp.C07.ProofsFunc
 /-!
 C07 — gradients through operators equal gradients through the dense computation.  Property theorems only.
 
@@ -11,23 +12,52 @@ open LinOp Matrix
 
 variable {α : Type} [CommRing α]
 
-/-- **Hand-written derivative = derivative of the dense matrix** (`bilinearDerivative_<class>` for Dense, Diag,
-ConstantDiag, ConstantMul incl. the constant's own gradient, Matmul, Sum/AddedDiag, SumBatch, and all their
-nestings of any depth and any sizes): for every perturbation `δ` of the parameters,
+/-- **Hand-written derivative = derivative of the dense matrix** (`bilinearDerivative_<class>` and
+`bilinearDerivative_nested` in one statement): for every operator tree built from Dense, Diag, ConstantDiag, ConstantMul
+(incl. the constant's own gradient), Matmul, Sum/AddedDiag, Mul, Masked, Interpolated, BlockDiag, BlockInterleaved and
+SumBatch — any depth, any sizes, any number of vector pairs — and every perturbation `δ` of the parameters,
 `Σ_k (op._bilinear_derivative(U, V))_k · δ_k = Σ_c u_cᵀ (D⟦op⟧_θ[δ]) v_c`, the ε-part of `Σ_c u_cᵀ ⟦op(θ+εδ)⟧ v_c`.
-PARTIAL with respect to the full model grammar: the classes Toeplitz, Mul, Masked, Interpolated, BlockDiag,
-BlockInterleaved are modelled and executed (driver correspondence, `dbil` protocol) but their step lemmas are not
-closed; the full claim is `∀ o : Op n m, pair o (bilinDeriv o θ U V) δ = bil (dDenote o θ δ) U V`. -/
-theorem bilinearDerivative_supported_partial {n m : Nat} {o : Op n m} (h : Supported o) (θ δ : Param α o)
+Structural induction over all constructors (`all_correct`); only the Toeplitz LEAF is excluded here. -/
+theorem bilinearDerivative_toeplitzFree {n m : Nat} (o : Op n m) (h : toeplitzFree o) (θ δ : Param α o)
     {d : Nat} (U : Mat α n d) (V : Mat α m d) :
     pair o (bilinDeriv o θ U V) δ = bil (dDenote o θ δ) U V := by
   rw [bil_eq_bilS]
-  exact (supported_correct h).2 θ δ d U V
+  exact (all_correct o (Or.inl h)).2 θ δ d U V
 
-/-- The ε⁰-part of the dual-number evaluation is the operator itself: `⟦o⟧(θ+εδ) = ⟦o⟧θ + ε·(…)`. -/
-theorem denote_dual_re {n m : Nat} {o : Op n m} (h : Supported o) (θ δ : Param α o) (i : Fin n) (j : Fin m) :
-    (denote o (mkDual o θ δ) i j).re = denote o θ i j :=
-  (supported_correct h).1 θ δ i j
+/-- The same for EVERY operator tree of the model, given the statement for the Toeplitz leaf
+(`sym_toeplitz_derivative_quadratic_form`), which is the one step lemma not closed (it is evaluated by the driver, `dbil`,
+on every run).  PARTIAL: the full claim is this theorem without the hypothesis `hT`. -/
+theorem bilinearDerivative_all_partial {n m : Nat} (o : Op n m) (hT : ∀ k : Nat, Correct α (.toeplitz k))
+    (θ δ : Param α o) {d : Nat} (U : Mat α n d) (V : Mat α m d) :
+    pair o (bilinDeriv o θ U V) δ = bil (dDenote o θ δ) U V := by
+  rw [bil_eq_bilS]
+  exact (all_correct o (Or.inr hT)).2 θ δ d U V
+
+/-- The ε⁰-part of the dual-number evaluation is the operator itself: `⟦o⟧(θ+εδ) = ⟦o⟧θ + ε·(…)`, all trees. -/
+theorem denote_dual_re {n m : Nat} (o : Op n m) (θ δ : Param α o) (i : Fin n) (j : Fin m) :
+    (denote o (mkDual o θ δ) i j).re = denote o θ i j := by
+  induction o with
+  | dense n m => exact reOK_dense n m θ δ i j
+  | diag n => exact reOK_diag n θ δ i j
+  | constDiag n => exact reOK_constDiag n θ δ i j
+  | toeplitz n => exact reOK_toeplitz n θ δ i j
+  | constMul o ih => exact reOK_constMul o ih θ δ i j
+  | matmul a b iha ihb => exact reOK_matmul a b iha ihb θ δ i j
+  | sum a b iha ihb => exact reOK_sum a b iha ihb θ δ i j
+  | mul a b iha ihb => exact reOK_mul a b iha ihb θ δ i j
+  | masked rows cols o ih => exact reOK_masked rows cols o ih θ δ i j
+  | interp ql qr li ri o ih => exact reOK_interp ql qr li ri o ih θ δ i j
+  | blockDiag k o ih => exact reOK_blockDiag k o ih θ δ i j
+  | blockInterleaved k o ih => exact reOK_blockInterleaved k o ih θ δ i j
+  | sumBatch k o ih => exact reOK_sumBatch k o ih θ δ i j
+
+/-- **BatchRepeat / broadcast parameters are summed** (`broadcast_params_summed`): moving the repeat batches into the
+columns delivers to the base operator's parameters the SUM over the repeats of the per-repeat bilinear forms. -/
+theorem batchRepeat_params_summed {n m : Nat} (o : Op n m) (h : toeplitzFree o) (θ δ : Param α o) {r d : Nat}
+    (U : Fin r → Mat α n d) (V : Fin r → Mat α m d) :
+    pair o (batchRepeatDeriv o θ U V) δ = ∑ q, bil (dDenote o θ δ) (U q) (V q) := by
+  simp only [bil_eq_bilS]
+  exact batchRepeatDeriv_correct o (all_correct o (Or.inl h)).2 θ δ U V
 
 /-- **Nesting** (`bilinearDerivative_nested`, the Matmul step): if both factors' derivative code is correct for
 ALL vector pairs, then the product's is — its code hands the *intermediate* vectors `B V` and `Aᵀ U` to the factors.
@@ -95,8 +125,31 @@ theorem solve_backward_scalar {n c : Nat} (A Ainv dA : Matrix (Fin n) (Fin n) α
   rw [solve_backward A Ainv dA X dX B dB hinv h0 h1, hb]
   simp only [Matrix.transpose_mul, Matrix.transpose_transpose, Matrix.mul_sub, Matrix.trace_sub, Matrix.mul_assoc]
 
-/-- The hypotheses of the main theorem are satisfiable by a depth-3 nesting. -/
-example : Supported (.constMul (.matmul (.sum (.dense 2 3) (.dense 2 3)) (.sumBatch 2 (.dense 3 2)))) :=
-  .constMul (.matmul (.sum (.dense 2 3) (.dense 2 3)) (.sumBatch 2 (.dense 3 2)))
+/-- **inv_quad backward**: `q = Σ_c b_cᵀ A⁻¹ b_c = tr(Xᵀ B)` with `A X = B`, `A` symmetric: its first-order change is
+`2·tr(Xᵀ dB) − Σ_c x_cᵀ dA x_c` — the rhs receives `2·solves` and the parameters `_bilinear_derivative(−solves, solves)`,
+as `InvQuad.backward` computes (before the upstream factor). -/
+theorem invQuad_backward {n c : Nat} (A dA : Matrix (Fin n) (Fin n) α) (X dX B dB : Matrix (Fin n) (Fin c) α)
+    (hs : Aᵀ = A) (h0 : A * X = B) (h1 : A * dX + dA * X = dB) :
+    Matrix.trace (dXᵀ * B) + Matrix.trace (Xᵀ * dB)
+      = Matrix.trace (Xᵀ * dB) + Matrix.trace (Xᵀ * dB) - bilS dA X X :=
+  invQuad_first_order A dA X dX B dB hs h0 h1
+
+/-- **logdet backward**: in a commutative ring with a square-zero element `e` (the dual numbers `K[ε]`, `e = ε`),
+`det(A + e·dA) = det A · (1 + e · tr(A⁻¹ dA))`, i.e. `d log det A = tr(A⁻¹ dA)`. -/
+theorem logdet_backward {n : Nat} {S : Type} [CommRing S] (e : S) (he : e * e = 0)
+    (A Ainv dA : Matrix (Fin n) (Fin n) S) (hinv : A * Ainv = 1) :
+    Matrix.det (A + e • dA) = Matrix.det A * (1 + e * Matrix.trace (Ainv * dA)) :=
+  det_add_eps_smul e he A Ainv dA hinv
+
+/-- The probe estimator `Σ_c z_cᵀ A⁻¹ dA z_c` of `InvQuadLogdet.backward` equals `tr(A⁻¹ dA)` exactly for a complete
+orthonormal probe set (`Z Zᵀ = I`) — the form the harness checks on the CG path. -/
+theorem logdet_probe_estimator {n : Nat} (Ainv dA Z : Matrix (Fin n) (Fin n) α) (hZ : Z * Zᵀ = 1) :
+    Matrix.trace (Zᵀ * (Ainv * dA) * Z) = Matrix.trace (Ainv * dA) :=
+  probe_estimator_exact Ainv dA Z hZ
+
+/-- The hypothesis of the main theorem is satisfiable by a depth-4 nesting through every kind of step. -/
+example : toeplitzFree (.constMul (.matmul (.sum (.dense 2 3) (.dense 2 3))
+    (.sumBatch 2 (.mul (.blockDiag 3 (.diag 1)) (.dense 3 3))))) := by
+  simp [toeplitzFree]
 
 end LinOp.C07
